@@ -2,6 +2,7 @@ SPECIFICATION TSpec
 CONSTANTS
   GuardTrain = TRUE
 INVARIANT RankOK
+INVARIANT CorrHeldOut
 INVARIANT CorrIsScore
 INVARIANT TWeightedCoverage
 INVARIANT TSmallestCorrection
